@@ -90,6 +90,39 @@ NOT_APPLICABLE = [
     for p in ["C01", "C10", "C11", "C12", "C13", "C15", "C16", "C17", "C18", "C19", "C20"]
 ]
 
+TB_DIFF = (
+    "trusted: the reference = the same generated source text exec-ed with plain callables (CPython semantics), hash-consed symbolic "
+    "terms compared by identity; decided only on generated programs of the stated fragment and bounds"
+)
+CHECKS.update({
+    "C01": dict(
+        engine="twzmon.diff", level="exploration", design_ref="DESIGN.md 4-C01, 2.2",
+        technique="differential runtime monitoring: same source text run under tawazi and as plain Python, symbolic values compared by identity",
+        text="each generated describing function is executed under tawazi (random max_concurrency, attributes via decorator or "
+        "config_from_dict/yaml/json, sync/async, controlled random completion orders) and as plain Python; returned value, per-function "
+        "execution counts and per-call-site argument terms must agree",
+        note=TB_DIFF,
+    ),
+    "C10": dict(
+        engine="twzmon.diff", level="exploration", design_ref="DESIGN.md 4-C10",
+        technique="differential runtime monitoring with per-flagged-call-site entry monitors",
+        text="flag-heavy programs (all flag forms and positions): a flagged call site is entered iff its flag is truthy in the reference run, "
+        "deactivated results are None, dependents run and receive None, a deactivated nested DAG runs none of its nodes and yields None "
+        "outputs; one recorded known finding (keyed outputs of a deactivated nested DAG) is classified by mechanism",
+        note=TB_DIFF,
+    ),
+    "C20": dict(
+        engine="twzmon.diff", level="exploration", design_ref="DESIGN.md 4-C20",
+        technique="differential runtime monitoring on nesting-heavy programs (depth <= 3), shared functions inside/outside inner DAGs",
+        text="outer DAG value, execution counts and per-call-site arguments (prefixed node ids predicted by the monitor) must equal the plain "
+        "evaluation where inner describing functions are ordinary functions; explicit arguments override defaults, omitted ones default",
+        note=TB_DIFF,
+    ),
+})
+ENGINES.append({"name": "twzmon.diff", "path": "twzmon/diffjobs.py", "serves_properties": ["C01", "C10", "C20"],
+                "kind_free_text": "program generator + double execution of the same source text (runtime monitoring, differential oracle)"})
+NOT_APPLICABLE[:] = [x for x in NOT_APPLICABLE if x["property_id"] not in CHECKS]
+
 NOTES = (
     "Technique family: runtime monitoring. Compiler sanitizers / TSan / valgrind do not apply (pure Python); their Python-level "
     "analogues are used (lockset monitor, forced pre-emption, stack sampling). Exit codes: 0 held on everything explored, 1 VIOLATION, "
